@@ -111,7 +111,11 @@ pub fn gen_single(rng: &mut Rng) -> Case {
             Op::Alu(asm::Alu::Shl) | Op::Alu(asm::Alu::Shr) | Op::Alu(asm::Alu::ShrI) => { extra.push(rng.word()); extra.push(near(rng, 63)); }
             Op::Alu(_) | Op::Pred(_) => {
                 // a quarter of the binary cases use operand pairs at which checked arithmetic changes its answer
-                if rng.chance(1, 4) { let p = rng.pick(PAIRS); extra.push(p.0); extra.push(p.1); } else { extra.push(rng.word()); extra.push(rng.word()); }
+                if matches!(op, Op::Alu(asm::Alu::Div) | Op::Alu(asm::Alu::Mod)) && rng.chance(1, 3) {
+                    // the only quotient that does not fit, zero divisors, and the sign rules of truncated division
+                    let p = rng.pick(&[(i64::MIN, -1i64), (i64::MIN, -1), (i64::MIN, 1), (i64::MIN + 1, -1), (i64::MAX, -1), (7, 0), (i64::MIN, 0), (0, 0), (-7, 2), (7, -2), (-7, -2), (i64::MIN, i64::MIN), (i64::MIN, 2), (-1, i64::MIN)]);
+                    extra.push(p.0); extra.push(p.1);
+                } else if rng.chance(1, 4) { let p = rng.pick(PAIRS); extra.push(p.0); extra.push(p.1); } else { extra.push(rng.word()); extra.push(rng.word()); }
             }
             Op::Memory(asm::Memory::Alloc) => extra.push(near(rng, 10240 - mlen)),
             Op::Memory(asm::Memory::Free) => extra.push(near(rng, mlen)),
@@ -144,7 +148,16 @@ pub fn gen_limits(rng: &mut Rng) -> Case {
     let mut c = Case { family: "limits", ..Default::default() };
     let delta = rng.range(-1, 1);                      // result size relative to the limit
     let seq = |n: usize| -> Vec<Word> { (0..n).map(|i| i as Word).collect() };
-    match rng.below(13) {
+    match rng.below(14) {
+        13 => { // Compute nesting: one level is the limit, whatever the memories hold
+            let mut ops = vec![];
+            if rng.chance(1, 2) { ops.extend([push(rng.range(1, 3)), ALOC, POP]); }
+            ops.extend([push(rng.range(1, 3)), COM]);
+            if rng.chance(1, 2) { ops.extend([push(1), ALOC, POP]); }
+            if delta >= 0 { ops.extend([push(rng.range(1, 2)), COM, push(1), ALOC, POP, COME]); }
+            ops.extend([COME, push(7)]);
+            c.ops = ops; c.limit = 4000;
+        }
         0 => { c.stack = seq((4095 + delta) as usize); c.ops = vec![push(rng.word())]; }
         1 => { c.stack = seq((4095 + delta) as usize); c.ops = vec![DUP]; }
         2 => { let mut s = seq((4095 + delta.min(0)) as usize); s.push(rng.range(0, 3)); c.stack = s; c.ops = vec![DUPF]; }
@@ -320,7 +333,20 @@ pub fn gen_compute(rng: &mut Rng) -> Case {
     c.ops.push(push(breadth));
     c.ops.push(COM);
     // child body; the compute index is on top of the stack
-    match rng.below(8) {
+    match rng.below(11) {
+        8 => { // two exits: odd (or even) children leave through another ComputeEnd than the rest
+            c.ops.extend([push(2), MOD]); if rng.chance(1, 2) { c.ops.push(NOT); }
+            c.ops.extend([push(5), SWAP, JMPIF, push(1), ALOC, POP, COME, push(2), ALOC, POP, push(9), push(0), STO]);
+        }
+        9 => { // even children leave an open Repeat frame behind (they jump out of their loop); odd children ask for the
+               // repeat counter outside any loop of their own: every child must start from the parent's state alone
+            c.ops.extend([push(2), MOD, push(13), SWAP, JMPIF,
+                          push(3), push(rng.range(0, 1)), REP, push(1), ALOC, POP, push(3), push(1), JMPIF, REPE, COME, COME,
+                          REPC, push(1), ALOC, POP, push(0), STO]);
+        }
+        10 => { // children that halt, fail or fall through depending on their index, after leaving residue on stack and memory
+            c.ops.extend([DUP, push(3), MOD, push(1), EQ, push(8), SWAP, JMPIF, push(2), ALOC, POP, push(5), push(0), STO, COME, push(77), push(78)]);
+        }
         0 => { c.ops.extend([DUP, ALOC, POP]); }                               // allocate `index` words
         1 => { c.ops.extend([push(1), ALOC, POP, push(0), STO]); }            // store index at 0
         2 => { c.ops.extend([push(2), MOD, push(3), SWAP, JMPIF, push(1), ALOC, POP, push(2), ALOC, POP]); } // odd children skip
@@ -429,7 +455,12 @@ pub fn gen_crypto(rng: &mut Rng) -> Case {
             let msg: Vec<u8> = { let need = ((n as usize) + 7) / 8; words[words.len() - need..].iter().flat_map(|w| w.to_be_bytes()).take(n as usize).collect() };
             let mut sig = key.sign(&msg).to_bytes().to_vec();
             let mut pk = key.verifying_key().to_bytes().to_vec();
-            match rng.below(6) { 0 => sig[rng.below(64) as usize] ^= 1, 1 => pk[rng.below(32) as usize] ^= 0x40, 2 => { pk = vec![0xFF; 32]; } 3 => { sig = vec![0; 64]; } _ => {} }
+            match rng.below(8) { 0 => sig[rng.below(64) as usize] ^= 1, 1 => pk[rng.below(32) as usize] ^= 0x40, 2 => { pk = vec![0xFF; 32]; } 3 => { sig = vec![0; 64]; }
+                // well-formed keys and signatures built from small-order points: plain verification (the reference) accepts some of
+                // them for any message, "strict" variants refuse them
+                4 => { pk = vec![0; 32]; pk[0] = 1; sig = vec![0; 64]; sig[0] = 1; }
+                5 => { pk = vec![0xFF; 32]; pk[0] = 0xEC; pk[31] = 0x7F; sig = vec![0; 64]; sig[0] = 1; }
+                _ => {} }
             push_words(&mut c.ops, &words);
             c.ops.push(push(n));
             push_words(&mut c.ops, &words_of_bytes(&sig));
@@ -571,5 +602,9 @@ pub fn corpus() -> Vec<Case> {
     // the children's sum passes 2^64 while the limit they share is exactly u64::MAX (everything before them is free)
     v.push(Case { family: "compute", ops: vec![push(2), COM, push(7), POP, COME], cost: Cost::Table(vec![(0x01, 0), (0x90, 0), (0x91, 0)], 1 << 63), limit: u64::MAX, ..Default::default() });
     v.push(Case { family: "compute", ops: vec![push(4), COM, push(7), POP, COME], cost: Cost::Table(vec![(0x01, 0), (0x90, 0), (0x91, 0)], 1 << 62), limit: u64::MAX, ..Default::default() });
+    // every binary arithmetic op on every operand pair at which checked arithmetic changes its answer
+    for op in [ADD, SUB, MUL, DIV, MOD] { for (x, y) in PAIRS { v.push(Case { family: "single", stack: vec![*x, *y], ops: vec![op.clone()], ..Default::default() }); } }
+    // shifts by amounts that alias an in-range amount under a truncating cast
+    for op in [SHL, SHR, SHRI] { for k in [64i64, 65, 1 << 8, (1 << 8) + 3, 1 << 16, 1 << 32, (1 << 32) + 3, (3 << 32) + 63, i64::MIN, i64::MIN + 5, -1] { v.push(Case { family: "single", stack: vec![-0x1234_5678, k], ops: vec![op.clone()], ..Default::default() }); } }
     v
 }
